@@ -53,10 +53,20 @@ func (b *casReaderBuffer) ReadAt(p []byte, off int64) (int, error) {
 	}
 
 	// Read the part of data at the correct offset.
-	n, err := io.ReadFull(r, p)
-	if err == io.EOF || err == io.ErrUnexpectedEOF {
-		return n, io.EOF
-	} else if err != nil {
+	// Don't use io.ReadFull() here, as it would make a reader
+	// failing with io.ErrUnexpectedEOF indistinguishable from a
+	// short read.
+	n := 0
+	var err error
+	for n < len(p) && err == nil {
+		var nRead int
+		nRead, err = r.Read(p[n:])
+		n += nRead
+	}
+	if n < len(p) {
+		if err == io.EOF {
+			return n, io.EOF
+		}
 		return 0, err
 	}
 
